@@ -187,6 +187,10 @@ func (askSelf *AskDef[T, R]) AskChannel(target ActorHandle[interface{}]) chan R 
 
 // Reply Receiver Reply
 func (askSelf *AskDef[T, R]) Reply(response R) {
+	defer func() {
+		// The asker gave up (AskOnceWithTimeout returned and closed the channel): discard the late reply
+		_ = recover()
+	}()
 	askSelf.ch <- response
 }
 
